@@ -336,6 +336,10 @@ func (w *WalletManager) estimateSignedSize(utxos []*txmgr.Credit, TxOutLen int) 
 		}
 		//a signature size is 73 at most,Sequence + PreviousOut
 		signedSize = signedSize + len(script) + 73*nrequired + 8 + 32 + 4
+		// framing of the wire encoding that the line above leaves out: tag and length
+		// of the input itself (3), of the outpoint and its hash (4), of the four words
+		// of the hash (4), of the index, the witness items and the sequence (1 + 2*nrequired + 2 + 1)
+		signedSize = signedSize + 3 + 4 + 4 + 1 + 2*nrequired + 2 + 1
 	}
 
 	//(Value 8 bytes +  PkScript 55 bytes at most)*N + lockTime(8 byte) + version(4 byte).
